@@ -105,12 +105,12 @@ def _freeze(v):
         tok = ('o', 'Pattern', v.pattern)
     elif isinstance(v, (types.FunctionType, types.BuiltinFunctionType, types.MethodType, type, types.ModuleType)):
         tok = ('o', type(v).__name__, getattr(v, '__qualname__', getattr(v, '__name__', '?')))
-    elif hasattr(v, '__dict__') and type(v).__module__ not in ('builtins', 'socket', 'threading', '_thread'):
+    elif (hasattr(v, '__dict__') or hasattr(type(v), '__slots__')) and type(v).__module__ not in ('builtins', 'socket', 'threading', '_thread'):
         # a small helper object the framer keeps part of its state in: its class + everything it holds
         ctok = ('o', 'class', type(v).__module__ + '.' + type(v).__qualname__)
         _OPAQUE[ctok] = type(v)
         slots = tuple((k, _freeze(getattr(v, k))) for c in type(v).__mro__ for k in getattr(c, '__slots__', ()) if k not in ('__dict__', '__weakref__') and hasattr(v, k))
-        return ('obj', ctok, tuple(sorted((k, _freeze(x)) for k, x in vars(v).items())), slots)
+        return ('obj', ctok, tuple(sorted((k, _freeze(x)) for k, x in getattr(v, '__dict__', {}).items())), slots)
     else:
         raise UnknownState('cannot canonicalise %r' % (v,))
     _OPAQUE[tok] = v
@@ -139,7 +139,7 @@ def _thaw(v):
             cls = _OPAQUE[v[1]]
             o = cls.__new__(cls)
             for k, x in v[2]:
-                o.__dict__[k] = _thaw(x)
+                setattr(o, k, _thaw(x)) if not hasattr(o, '__dict__') else o.__dict__.__setitem__(k, _thaw(x))
             for k, x in v[3]:
                 setattr(o, k, _thaw(x))
             return o
